@@ -71,3 +71,32 @@ package stdlib
 // the same for the math/big path, for any modulus P = 2^k and any number Q = 2^(8n-k) of high parts
 //@ theorem[C47] T_split_injective(B1, B2, P) = P > 0 && B1 >= 0 && B2 >= 0 && emod(B1, P) == emod(B2, P) && ediv(B1, P) == ediv(B2, P) ==> B1 == B2
 //@ theorem[C47] T_split_surjective(v, h, P, Q) = P > 0 && Q > 0 && 0 <= v && v < P && 0 <= h && h < Q ==> 0 <= v + h * P && v + h * P < P * Q && emod(v + h * P, P) == v && ediv(v + h * P, P) == h
+
+// ---- C21: the script-level constructor InclusiveRange(start, end, step: s). An explicit step always goes through
+// NewInclusiveRangeValueWithStep (which rejects a zero step and a step leading away from the end, C21) with that very
+// step; only a missing step takes the default-step constructor. Stated over the calls the path made; the type
+// plumbing around it (static/sema type lookups, the default-step constructor) is abstracted.
+//@ iface github.com/onflow/cadence/interpreter.StaticType.Equal
+//@   assumed
+//@   nofail
+//@ func github.com/onflow/cadence/interpreter.NewInclusiveRangeStaticType
+//@   assumed
+//@   nofail
+//@   env MemoryMeteringError
+//@ iface github.com/onflow/cadence/interpreter.InvocationContext.SemaTypeFromStaticType
+//@   assumed
+//@   option resultkind=*github.com/onflow/cadence/sema.InclusiveRangeType
+//@   nofail
+//@   env MemoryMeteringError
+//@ func github.com/onflow/cadence/interpreter.NewInclusiveRangeValue
+//@   assumed
+//@   env MemoryMeteringError ComputationMeteringError InclusiveRangeConstructionError
+//@   ensures result != nil
+//@ func NewInclusiveRange
+//@   props C21
+//@   requires invocationContext != nil && start != nil && end != nil && inty(start) && inty(end) && samety(start, end)
+//@   requires step != nil ==> inty(step) && samety(step, end)
+//@   env MemoryMeteringError ComputationMeteringError InclusiveRangeConstructionError
+//@   modifies ghost("metered")
+//@   ensures[C21] step != nil ==> called("interpreter.NewInclusiveRangeValueWithStep#1") && !called("interpreter.NewInclusiveRangeValue#1")
+//@   ensures[C21] step == nil ==> called("interpreter.NewInclusiveRangeValue#1")
